@@ -394,6 +394,45 @@ def handleSpec (j : Json) : Except String Json := do
     | none => return Json.mkObj [("ok", Json.null)]
   | _ => throw s!"unknown spec method {m}"
 
+def parseExp (j : Json) : Except String Api.Exp := do
+  let arr ← j.getArr?
+  arr.toList.mapM fun p => do
+    match (← p.getArr?) with
+    | #[k, col] => return ((← k.getStr?), (← col.getArr?).toList.map (fun x => match x with | .str s => s | _ => x.compress))
+    | _ => throw "bad exp entry"
+
+def jStrs (l : List String) : Json := Json.arr (l.map (fun (s : String) => toJson s)).toArray
+
+def handleApi (j : Json) : Except String Json := do
+  let m ← getStr j "m"
+  match m with
+  | "tuples" =>
+    let exps ← (← j.getObjValAs? (Array Json) "exps").toList.mapM parseExp
+    let keys ← j.getObjValAs? (Array String) "keys"
+    return exceptJson (fun (r : List (List (List String))) =>
+      Json.arr (r.map (fun ex => Json.arr (ex.map jStrs).toArray)).toArray) (Api.toTuples exps keys.toList)
+  | "dicts" =>
+    let exps ← (← j.getObjValAs? (Array Json) "exps").toList.mapM parseExp
+    let keys ← j.getObjValAs? (Array String) "keys"
+    return exceptJson (fun (r : List (List (List (String × String)))) =>
+      Json.arr (r.map (fun ex => Json.arr (ex.map (fun d =>
+        Json.arr (d.map (fun kv => Json.arr #[toJson kv.1, toJson kv.2])).toArray)).toArray)).toArray)
+      (Api.toDicts exps keys.toList)
+  | "csv" =>
+    let e ← parseExp (← j.getObjVal? "exp")
+    let cols ← j.getObjValAs? (Array String) "cols"
+    return exceptJson (fun (r : List (List String)) => Json.arr (r.map jStrs).toArray) (Api.csvRows e cols.toList)
+  | "tabulate" =>
+    let e ← parseExp (← j.getObjVal? "exp")
+    let fs ← (← j.getObjValAs? (Array Json) "factors").toList.mapM (fun f => do
+      match (← f.getArr?) with
+      | #[n, ls] => return ((← n.getStr?), (← ls.getArr?).toList.map (fun x => match x with | .str s => s | _ => x.compress))
+      | _ => throw "bad factor")
+    let trials ← getNats j "trials"
+    return exceptJson (fun (r : List (List String × Nat)) =>
+      Json.arr (r.map (fun p => Json.arr #[jStrs p.1, toJson p.2])).toArray) (Api.tabulate fs trials e)
+  | _ => throw s!"unknown api method {m}"
+
 def handle (j : Json) : Except String Json := do
   let op ← getStr j "op"
   match op with
@@ -403,6 +442,7 @@ def handle (j : Json) : Except String Json := do
   | "comb" => handleComb j
   | "text" => handleText j
   | "spec" => handleSpec j
+  | "api" => handleApi j
   | _ => throw s!"unknown op {op}"
 
 partial def loop (h : IO.FS.Stream) (out : IO.FS.Stream) : IO Unit := do
